@@ -1,6 +1,6 @@
 """C06 configuration: `<` is a strict total order consistent with `=`, and sorting follows it."""
 PROP = dict(
-    quick_n=9000, thorough_n=15000,
+    quick_n=6000, thorough_n=15000,
     trusted_base=[
         "rel.Value.Equal is modelled as equality of canonical forms (Impl.equal a b := key a = key b, the key being what the "
         "Less methods compare); Equal's own code is C02's subject. Every case compares Equal (directly and through `=`) with it.",
